@@ -17,6 +17,10 @@ use crate::{common::*, dsched};
 pub const A_OPS: &[&str] = &["create_fresh", "create_last_hole", "write_fits", "write_extend_last", "write_into_hole", "write_relocate_hole",
     "write_relocate_end", "truncate", "remove", "rename", "flush", "compact", "write_grow_file"];
 pub const B_SCRIPTS: &[&str] = &["create_small", "create_write", "grow_flush_create", "compact", "flush_reuse"];
+/// the reader clause of C10 for a reader that is being CREATED while its region moves: thread A creates a Reader of region
+/// 'a' and reads everything through it (parked at every lock event of that, in particular inside `Reader::new`), thread B
+/// appends to 'a' so that it relocates. The reader must show 'a' as it was or as it is, never bytes of another region.
+pub const READER_PAIR: (&str, &str) = ("reader_new", "relocate_a");
 
 fn bytes(n: usize, tag: u8) -> Vec<u8> { (0..n).map(|i| tag ^ (i as u8).wrapping_mul(31)).collect() }
 
@@ -66,7 +70,7 @@ fn prepare(tmp: &std::path::Path, a: &str) -> World {
             mk(&db, &mut e, "a", 100, 0xA1); mk(&db, &mut e, "y", 100, 0x50);
             drop_region(&db, &mut e, "g"); db.flush().unwrap();
         }
-        "write_relocate_end" => { mk(&db, &mut e, "a", 100, 0xA1); mk(&db, &mut e, "y", 100, 0x50); }
+        "write_relocate_end" | "reader_new" => { mk(&db, &mut e, "a", 100, 0xA1); mk(&db, &mut e, "y", 100, 0x50); }
         "flush" | "compact" => {
             mk(&db, &mut e, "a", 100, 0xA1); mk(&db, &mut e, "q", 50, 7); mk(&db, &mut e, "y", 100, 0x50);
             db.flush().unwrap();
@@ -137,6 +141,18 @@ fn a_op(w: &World, a: &str) -> Box<dyn FnOnce() + Send + 'static> {
             "rename" => { let v = cur("a"); set("a", None); set("a2", Some(v)); if let Err(e) = db.get_region("a").unwrap().rename("a2") { fails.lock().unwrap().push(format!("C10: A's rename failed: {e:?}")); } }
             "flush" => { if let Err(e) = db.flush() { fails.lock().unwrap().push(format!("C10: A's flush failed: {e:?}")); } }
             "compact" => { if let Err(e) = db.compact() { fails.lock().unwrap().push(format!("C10: A's compact failed: {e:?}")); } }
+            "reader_new" => {
+                // what region 'a' held before B touches it, and what it holds afterwards
+                let old = bytes(100, 0xA1);
+                let mut new = old.clone(); new.extend(bytes(5000, 0xA4));
+                let r = db.get_region("a").unwrap();
+                let rd = r.create_reader();
+                let got = rd.read_all().to_vec();
+                if got != old && got != new {
+                    let at = got.iter().zip(new.iter()).position(|(x, y)| x != y).unwrap_or(got.len().min(new.len()));
+                    fails.lock().unwrap().push(format!("C10: a reader of region 'a' created while the region was relocated returns {} bytes that are neither its old nor its new contents: byte {at} is {:#x}, the region holds {:#x}", got.len(), got.get(at).copied().unwrap_or(0), new.get(at).copied().unwrap_or(0)));
+                }
+            }
             _ => {}
         }
     })
@@ -163,6 +179,14 @@ fn b_script(w: &World, b: &str) -> Box<dyn FnOnce() + Send + 'static> {
             "create_write" => { step("x", 3000, 0xB1); step("x", 3000, 0xB2); }
             "grow_flush_create" => { step("y", 5000, 0xB3); if let Err(e) = db.flush() { fails.lock().unwrap().push(format!("C10: B's flush failed: {e:?}")); } step("z", 100, 0xB4); step("z", 6000, 0xB5); }
             "compact" => { if let Err(e) = db.compact() { fails.lock().unwrap().push(format!("C10: B's compact failed: {e:?}")); } }
+            "relocate_a" => {
+                // B appends to A's region (the one a reader is being created on): 'a' is not the last region, it relocates
+                let d = bytes(5000, 0xA4);
+                let mut v = expect.lock().unwrap().get("a").cloned().flatten().unwrap_or_default();
+                v.extend_from_slice(&d);
+                expect.lock().unwrap().insert("a".to_string(), Some(v));
+                if let Err(e) = db.get_region("a").unwrap().write(&d) { fails.lock().unwrap().push(format!("C10: B's append to 'a' failed: {e:?}")); }
+            }
             "flush_reuse" => { if let Err(e) = db.flush() { fails.lock().unwrap().push(format!("C10: B's flush failed: {e:?}")); } step("n", 4096, 0xEE); step("m", 4096, 0xED); step("o", 4096, 0xEC); step("p", 4096, 0xEB); }
             _ => {}
         }
@@ -233,6 +257,7 @@ pub fn pairs() -> Vec<(String, String, bool)> {
     } }
     // reader held across the schedule: operations on an existing region 'a' that need no file growth
     for a in ["write_fits", "write_into_hole", "write_relocate_hole", "truncate", "remove", "rename"] { v.push((a.to_string(), "flush_reuse".to_string(), true)); }
+    v.push((READER_PAIR.0.to_string(), READER_PAIR.1.to_string(), false));
     v
 }
 
